@@ -50,7 +50,7 @@ void harness(void)
 	if (CMD & 2) list_file_verbose(&filter, &options, stdin);
 	else list_file_basic(&filter, &options, stdin);
 	ref_listing(CMD, (int) q, members, 2, 946684800u, 1335830400ll);
-	CHECK(out_n > (q == 0 ? 300u : 60u), "a complete listing was written");
+	CHECK(out_n > (q == 0 ? 200u : 60u), "a complete listing was written");
 	if (perms == 0644 && uid == 1000 && level0 == 2) WITNESS("rw-r--r-- 1000 level 2");
 	c19_compare();
 	WITNESS("end");
